@@ -80,9 +80,17 @@ pub fn run(stim: &Value, rec: &Rec) {
         // ---- server
         if stim["alpn"].as_str().unwrap_or("h2") == "h2" {
             let mut cfg = ServerTlsConfig::new().identity(Identity::from_pem(pem("server.pem"), pem("server.key")));
-            match stim["client_auth"].as_str().unwrap_or("none") { "none" => {}, mode => { cfg = cfg.client_ca_root(Certificate::from_pem(pem("ca_c.pem"))).client_auth_optional(mode == "optional"); } }
+            // client_ca: "proper" (default), "empty" (no PEM section at all) or "key_only" (a private key where the CA should be)
+            let ca: Vec<u8> = match stim["client_ca"].as_str().unwrap_or("proper") { "empty" => b"# no certificate here\n".to_vec(), "key_only" => pem("client_c.key"), _ => pem("ca_c.pem") };
+            match stim["client_auth"].as_str().unwrap_or("none") { "none" => {}, mode => { cfg = cfg.client_ca_root(Certificate::from_pem(ca)).client_auth_optional(mode == "optional"); } }
             let incoming = tokio_stream::StreamExt::chain(tokio_stream::once(Ok::<_, std::io::Error>(s_io)), tokio_stream::pending());
-            tokio::spawn(async move { let _ = tonic::transport::Server::builder().tls_config(cfg).unwrap().add_service(svc).serve_with_incoming(incoming).await; });
+            let log3 = log.clone();
+            tokio::spawn(async move {
+                match tonic::transport::Server::builder().tls_config(cfg) {
+                    Ok(mut b) => { let _ = b.add_service(svc).serve_with_incoming(incoming).await; }
+                    Err(e) => { log3.ev(json!({"e":"server_config_rejected","msg":e.to_string()})); drop(incoming); }
+                }
+            });
         } else {
             let acceptor = tokio_rustls::TlsAcceptor::from(manual_server_config(&stim));
             let log2 = log.clone();
